@@ -41,11 +41,11 @@ ConcatLead(b1, b2, ax, inner) ==
       lo == [b1.lead EXCEPT ![ax] = b1.lead[ax] + b2.lead[ax]]
       so == Strides(lo)  s1 == Strides(b1.lead)  s2 == Strides(b2.lead)
   IN [lead |-> lo,
-      val |-> [n \in 1..(ProdSeq(lo) * inner) |->
+      val |-> Eager([n \in 1..(ProdSeq(lo) * inner) |->
          LET li == Unlin((n - 1) \div inner, lo, so)
              r  == (n - 1) % inner
          IN IF li[ax] < l1 THEN b1.val[Lin(li, s1) * inner + r + 1]
-            ELSE b2.val[Lin([li EXCEPT ![ax] = li[ax] - l1], s2) * inner + r + 1]]]
+            ELSE b2.val[Lin([li EXCEPT ![ax] = li[ax] - l1], s2) * inner + r + 1]])]
 
 (* append(k, parity, block, axis): concatenate on an existing type, else insert the type LAST *)
 CanAppend(m, t, b, ax) == /\ (m.order = <<>> \/ ax <= NLead(m))
@@ -63,25 +63,25 @@ CanConcat(a, b) == a.d = b.d /\ a.torus = b.torus
 ConcatMI(a, b, ax) == AppendAll(a, b, 1, ax)                     \* out = copy of a, then append b's blocks in b's order
 
 (* what jit / vmap / tree_flatten do: the dict comes back with SORTED keys; blocks, d, torus preserved by type *)
-PytreeMI(m) == LET so == SortTypes(TypeSet(m)) IN [m EXCEPT !.order = so, !.blks = [i \in 1..Len(so) |-> Blk(m, so[i])]]
+PytreeMI(m) == LET so == SortTypes(TypeSet(m)) IN [m EXCEPT !.order = so, !.blks = Eager([i \in 1..Len(so) |-> Blk(m, so[i])])]
 
 (* ---- arithmetic, by type ---- *)
 CanCombine(a, b) == a.d = b.d /\ a.torus = b.torus /\ TypeSet(a) = TypeSet(b)
-ZipMI(a, b, Op(_, _)) == [a EXCEPT !.blks = [i \in 1..Len(a.order) |->
+ZipMI(a, b, Op(_, _)) == [a EXCEPT !.blks = Eager([i \in 1..Len(a.order) |->
                            [lead |-> a.blks[i].lead,
-                            val |-> [n \in 1..Len(a.blks[i].val) |-> Op(a.blks[i].val[n], Blk(b, a.order[i]).val[n])]]]]
+                            val |-> Eager([n \in 1..Len(a.blks[i].val) |-> Op(a.blks[i].val[n], Blk(b, a.order[i]).val[n])])]])]
 AddMI(a, b)   == ZipMI(a, b, LAMBDA x, y : x + y)
 SubMI(a, b)   == ZipMI(a, b, LAMBDA x, y : x - y)
-ScaleMI(m, c) == [m EXCEPT !.blks = [i \in 1..Len(m.order) |-> [m.blks[i] EXCEPT !.val = [n \in 1..Len(m.blks[i].val) |-> c * m.blks[i].val[n]]]]]
+ScaleMI(m, c) == [m EXCEPT !.blks = Eager([i \in 1..Len(m.order) |-> [m.blks[i] EXCEPT !.val = Eager([n \in 1..Len(m.blks[i].val) |-> c * m.blks[i].val[n]])]])]
 EqMI(a, b)    == /\ a.d = b.d /\ a.torus = b.torus /\ TypeSet(a) = TypeSet(b)
                  /\ \A t \in TypeSet(a) : Blk(a, t).val = Blk(b, t).val /\ Blk(a, t).lead = Blk(b, t).lead
 
 (* ---- vectorise / de-vectorise (storage order of the template) ---- *)
 ToVector(m) == FlatCat([i \in 1..Len(m.order) |-> m.blks[i].val])
 Offsets(m)  == [i \in 1..Len(m.order) |-> SumSeq([j \in 1..(i - 1) |-> Len(m.blks[j].val)])]
-FromVector(v, tmpl) == [tmpl EXCEPT !.blks = [i \in 1..Len(tmpl.order) |->
+FromVector(v, tmpl) == [tmpl EXCEPT !.blks = Eager([i \in 1..Len(tmpl.order) |->
                           [lead |-> tmpl.blks[i].lead,
-                           val |-> SubSeq(v, Offsets(tmpl)[i] + 1, Offsets(tmpl)[i] + Len(tmpl.blks[i].val))]]]
+                           val |-> SubSeq(v, Offsets(tmpl)[i] + 1, Offsets(tmpl)[i] + Len(tmpl.blks[i].val))]])]
 
 (* ---- tensor components <-> scalar channels.  Positional contract: with nb batch axes, the block of type t with
         c channels contributes the scalar channels off(t) + ch * d^k + comp, types in storage order ---- *)
@@ -97,7 +97,7 @@ ToScalar(m) ==
       os   == Strides(osh)
   IN [m EXCEPT !.order = <<<<0, 0>>>>,
         !.blks = <<[lead |-> bsh \o <<C>>,
-                    val |-> [n \in 1..ProdSeq(osh) |->
+                    val |-> Eager([n \in 1..ProdSeq(osh) |->
                        LET dg == Unlin(n - 1, osh, os)
                            bi == SubSeq(dg, 1, nl - 1)
                            sc == dg[nl]                                   \* scalar channel
@@ -107,7 +107,7 @@ ToScalar(m) ==
                            ch == (sc - coff[i]) \div nc
                            cp == (sc - coff[i]) % nc
                            fl == Lin(bi \o <<ch>> \o x, Strides(bsh \o <<ChanOf(m, i)>> \o m.dims)) * nc + cp
-                       IN m.blks[i].val[fl + 1]]]>>]
+                       IN m.blks[i].val[fl + 1]])]>>]
 
 (* layout : Seq(<<type, channels>>) -- the inverse placement, types emitted in layout order *)
 FromScalar(m, layout) ==
@@ -119,26 +119,26 @@ FromScalar(m, layout) ==
       nch(i) == layout[i][2] * Pow(m.d, layout[i][1][1])
       coff == [i \in 1..Len(layout) |-> SumSeq([j \in 1..(i - 1) |-> nch(j)])]
   IN [m EXCEPT !.order = [i \in 1..Len(layout) |-> layout[i][1]],
-        !.blks = [i \in 1..Len(layout) |->
+        !.blks = Eager([i \in 1..Len(layout) |->
            LET k   == layout[i][1][1]
                nc  == Pow(m.d, k)
                osh == bsh \o <<layout[i][2]>> \o m.dims
                os  == Strides(osh)
            IN [lead |-> bsh \o <<layout[i][2]>>,
-               val |-> [n \in 1..(ProdSeq(osh) * nc) |->
+               val |-> Eager([n \in 1..(ProdSeq(osh) * nc) |->
                   LET dg == Unlin((n - 1) \div nc, osh, os)
                       cp == (n - 1) % nc
                       sc == coff[i] + dg[nl] * nc + cp
-                  IN m.blks[1].val[Lin(SubSeq(dg, 1, nl - 1) \o <<sc>> \o SubSeq(dg, nl + 1, nl + m.d), ss) + 1]]]]]
+                  IN m.blks[1].val[Lin(SubSeq(dg, 1, nl - 1) \o <<sc>> \o SubSeq(dg, nl + 1, nl + m.d), ss) + 1]])]])]
 
 (* ---- split by signature along a leading axis: b receives the LAST sizes[t] entries, a the rest ---- *)
 SliceLead(b, ax, from, to, inner) ==         \* entries from..to-1 (0-based) along axis ax
   LET lo == [b.lead EXCEPT ![ax] = to - from]
       so == Strides(lo)  sb == Strides(b.lead)
   IN [lead |-> lo,
-      val |-> [n \in 1..(ProdSeq(lo) * inner) |->
+      val |-> Eager([n \in 1..(ProdSeq(lo) * inner) |->
          LET li == Unlin((n - 1) \div inner, lo, so)
-         IN b.val[Lin([li EXCEPT ![ax] = li[ax] + from], sb) * inner + ((n - 1) % inner) + 1]]]
+         IN b.val[Lin([li EXCEPT ![ax] = li[ax] + from], sb) * inner + ((n - 1) % inner) + 1]])]
 SizeIn(sig, t) == IF \E i \in 1..Len(sig) : sig[i][1] = t THEN sig[CHOOSE i \in 1..Len(sig) : sig[i][1] = t][2] ELSE 0
 SubSeqWhere(s, P(_)) == LET F[i \in 0..Len(s)] == IF i = 0 THEN <<>> ELSE IF P(i) THEN Append(F[i - 1], s[i]) ELSE F[i - 1] IN F[Len(s)]
 ConcatInverse(m, sig, ax) ==
@@ -149,24 +149,24 @@ ConcatInverse(m, sig, ax) ==
       ia == SubSeqWhere([i \in 1..Len(m.order) |-> i], inA)
       ib == SubSeqWhere([i \in 1..Len(m.order) |-> i], inB)
   IN <<[m EXCEPT !.order = [j \in 1..Len(ia) |-> m.order[ia[j]]],
-          !.blks = [j \in 1..Len(ia) |-> IF sz(ia[j]) = 0 THEN m.blks[ia[j]]
-                                         ELSE SliceLead(m.blks[ia[j]], ax, 0, tot(ia[j]) - sz(ia[j]), Inner(m, m.order[ia[j]]))]],
+          !.blks = Eager([j \in 1..Len(ia) |-> IF sz(ia[j]) = 0 THEN m.blks[ia[j]]
+                                         ELSE SliceLead(m.blks[ia[j]], ax, 0, tot(ia[j]) - sz(ia[j]), Inner(m, m.order[ia[j]]))])],
        [m EXCEPT !.order = [j \in 1..Len(ib) |-> m.order[ib[j]]],
-          !.blks = [j \in 1..Len(ib) |-> IF sz(ib[j]) = tot(ib[j]) THEN m.blks[ib[j]]
-                                         ELSE SliceLead(m.blks[ib[j]], ax, tot(ib[j]) - sz(ib[j]), tot(ib[j]), Inner(m, m.order[ib[j]]))]]>>
+          !.blks = Eager([j \in 1..Len(ib) |-> IF sz(ib[j]) = tot(ib[j]) THEN m.blks[ib[j]]
+                                         ELSE SliceLead(m.blks[ib[j]], ax, tot(ib[j]) - sz(ib[j]), tot(ib[j]), Inner(m, m.order[ib[j]]))])]>>
 
 (* ---- pure reshapes of the leading axes: values untouched ---- *)
-MapLead(m, F(_)) == [m EXCEPT !.blks = [i \in 1..Len(m.order) |-> [m.blks[i] EXCEPT !.lead = F(m.blks[i].lead)]]]
+MapLead(m, F(_)) == [m EXCEPT !.blks = Eager([i \in 1..Len(m.order) |-> [m.blks[i] EXCEPT !.lead = F(m.blks[i].lead)]])]
 Expand(m, ax, size)   == MapLead(m, LAMBDA l : SubSeq(l, 1, ax - 1) \o <<l[ax] \div size, size>> \o SubSeq(l, ax + 1, Len(l)))
 Combine(m, a1, a2)    == MapLead(m, LAMBDA l : SubSeq(l, 1, a1 - 1) \o <<ProdSeq(SubSeq(l, a1, a2))>> \o SubSeq(l, a2 + 1, Len(l)))
 ReshapePmap(m, n)     == MapLead(m, LAMBDA l : <<n, l[1] \div n>> \o Tail(l))
 
 (* ---- subset along the first leading axis ---- *)
 GetSubset(m, idxs) ==
-  [m EXCEPT !.blks = [i \in 1..Len(m.order) |->
+  [m EXCEPT !.blks = Eager([i \in 1..Len(m.order) |->
      LET b == m.blks[i]  per == Len(b.val) \div b.lead[1]
      IN [lead |-> [b.lead EXCEPT ![1] = Len(idxs)],
-         val |-> [n \in 1..(Len(idxs) * per) |-> b.val[idxs[(n - 1) \div per + 1] * per + ((n - 1) % per) + 1]]]]]
+         val |-> Eager([n \in 1..(Len(idxs) * per) |-> b.val[idxs[(n - 1) \div per + 1] * per + ((n - 1) % per) + 1]])]])]
 
 (* ---- to / from single images ---- *)
 ToImages(m) == FlatCat([i \in 1..Len(m.order) |->
@@ -184,7 +184,7 @@ ImageAt(m, i, j) == LET t == m.order[i]  inner == Inner(m, t) IN
                     [dims |-> m.dims, k |-> t[1], p |-> t[2], val |-> SubSeq(m.blks[i].val, (j - 1) * inner + 1, j * inner)]
 LiftBlock(m, i, F(_)) == FlatCat([j \in 1..ProdSeq(m.blks[i].lead) |-> F(ImageAt(m, i, j)).val])
 ActMI(g, m) == [m EXCEPT !.dims = OutDims(g, m.dims), !.torus = OutDims(g, m.torus),
-                         !.blks = [i \in 1..Len(m.order) |-> [m.blks[i] EXCEPT !.val = LiftBlock(m, i, LAMBDA A : Act(g, A))]]]
+                         !.blks = Eager([i \in 1..Len(m.order) |-> [m.blks[i] EXCEPT !.val = LiftBlock(m, i, LAMBDA A : Act(g, A))]])]
 (* squared pixel norms of every type become scalar channels, concatenated on the channel (last leading) axis in storage order *)
 RECURSIVE CatBlocks(_, _, _)
 CatBlocks(bs, ax, inner) == IF Len(bs) = 1 THEN bs[1] ELSE CatBlocks(<<ConcatLead(bs[1], bs[2], ax, inner)>> \o SubSeq(bs, 3, Len(bs)), ax, inner)
@@ -200,12 +200,12 @@ AvgPoolNum(A, q) ==
       ro == Radix(od, A.k)  so == Strides(ro)  sa == Strides(Radix(A.dims, A.k))
       offs == PixSeq2([j \in 1..D |-> q])
   IN [A EXCEPT !.dims = od,
-        !.val = [n \in 1..ProdSeq(ro) |->
+        !.val = Eager([n \in 1..ProdSeq(ro) |->
            LET dg == Unlin(n - 1, ro, so) IN
            SumSeq([r \in 1..Len(offs) |->
-              A.val[Lin([j \in 1..(D + A.k) |-> IF j <= D THEN dg[j] * q + offs[r][j] ELSE dg[j]], sa) + 1]])]]
+              A.val[Lin([j \in 1..(D + A.k) |-> IF j <= D THEN dg[j] * q + offs[r][j] ELSE dg[j]], sa) + 1]])])]
 AvgPoolNumMI(m, q) == [m EXCEPT !.dims = [j \in 1..Len(m.dims) |-> m.dims[j] \div q],
-                         !.blks = [i \in 1..Len(m.order) |-> [m.blks[i] EXCEPT !.val = LiftBlock(m, i, LAMBDA A : AvgPoolNum(A, q))]]]
+                         !.blks = Eager([i \in 1..Len(m.order) |-> [m.blks[i] EXCEPT !.val = LiftBlock(m, i, LAMBDA A : AvgPoolNum(A, q))]])]
 
 (* get_component(comp, T): blocks (c*T, spatial, tensor), one leading axis.  The fields of all types are laid side by
    side as scalar components (type in storage order, then channel, then tensor component); the result is the single
@@ -220,7 +220,7 @@ GetComponent(m, comp, T) ==
       np == ProdSeq(m.dims)
   IN [m EXCEPT !.order = <<<<0, 0>>>>,
         !.blks = <<[lead |-> <<T>>,
-                    val |-> [n \in 1..(T * np) |->
+                    val |-> Eager([n \in 1..(T * np) |->
                        LET t == (n - 1) \div np  x == (n - 1) % np
-                       IN m.blks[i].val[((ch * T + t) * np + x) * nc + cp + 1]]]>>]
+                       IN m.blks[i].val[((ch * T + t) * np + x) * nc + cp + 1]])]>>]
 =============================================================================
